@@ -274,6 +274,8 @@ let coq_bool b = if b then "true" else "false"
 let coq inp obs =
   try
     if obs = "hang" || obs = "panic" then None else
+    (* long byte-list literals overflow coqc's stack: only cases of moderate size are rendered *)
+    if String.length inp + String.length obs > 2500 then None else
     let probe = first_tok obs in
     let st = probe_of probe and efix = efix_of probe in
     let cst = Printf.sprintf "(%s, %s)" (coq_bool (fst st)) (coq_bool (snd st)) in
@@ -290,7 +292,7 @@ let coq inp obs =
          Some (Printf.sprintf "%s && match node_decode %s %s with Ok (Some d) => bytes_eqb (dencode blake2b_256 %s d) %s | _ => false end"
                  base cst (coq_bytes bs) (coq_bool efix) (coq_bytes (bytes_of_hex r)))
        | _ -> Some base)
-    | "enc" :: _ when String.length inp < 20000 ->
+    | "enc" :: _ ->
       let tok = Array.of_list (split_ws inp) in
       let pos = ref 1 in
       let t = parse_tree tok pos in
